@@ -198,5 +198,9 @@ class DotProductComp(ExplicitComponent):
             b = inputs[product['b_name']]
 
             # Use the following for sparse partials
-            partials[product['c_name'], product['a_name']] = b.ravel()
-            partials[product['c_name'], product['b_name']] = a.ravel()
+            if product['a_name'] == product['b_name']:
+                # both operands are the same input, so the two contributions add up
+                partials[product['c_name'], product['a_name']] = 2.0 * a.ravel()
+            else:
+                partials[product['c_name'], product['a_name']] = b.ravel()
+                partials[product['c_name'], product['b_name']] = a.ravel()
